@@ -188,6 +188,16 @@ def read_dispatch(repo, unrec):
     if not re.search(r"static\s+SCOPED_COUNT\s*:\s*AtomicUsize\s*=\s*AtomicUsize::new\(\s*0\s*\)\s*;", src):
         unrec.append("%s: SCOPED_COUNT is not initialised with 0" % W)
         d["fast"] = "FastUnknown"
+    # H3 call sites inside set_global_default (hooks/H3_dispatch_global.patch): Python-side only, enables the forced-schedule leg
+    # of C02.  Read from the untouched file text (rsparse.strip_comments removes verification hooks before recognition).
+    d["hooks_setglobal"] = []
+    try:
+        rawtxt = open(os.path.join(repo, "tracing-core/src/dispatch.rs"), encoding="utf-8").read()
+        m = re.search(r"pub fn set_global_default\b.*?\n\}\n", rawtxt, re.S)
+        if m:
+            d["hooks_setglobal"] = [int(x) for x in re.findall(r"__verif::yield_point\(\s*(\d+)\s*\)", m.group(0))]
+    except OSError:
+        pass
     b = one("set_global_default")
     if b is not None:
         m = re.fullmatch(r"ifGLOBAL_INIT\.compare_exchange\((\w+),(\w+),%s,%s,?\)\.is_ok\(\)\{(.*)unsafe\{GLOBAL_DISPATCH=Dispatch\{collector\};\}"
